@@ -280,8 +280,9 @@ impl Property for StatQ {
     }
     fn runs(&self, tier: Tier) -> u64 {
         match (tier, self.0) {
-            (Tier::Quick, Mode::C01) | (Tier::Quick, Mode::C07) => 1_000_000,
-            (Tier::Quick, _) => 600_000,
+            (Tier::Quick, Mode::C01) | (Tier::Quick, Mode::C07) => 2_000_000,
+            (Tier::Quick, Mode::C04) => 1_200_000,
+            (Tier::Quick, _) => 1_500_000,
             (Tier::Thorough, Mode::C01) | (Tier::Thorough, Mode::C07) => 20_000_000,
             (Tier::Thorough, _) => 15_000_000,
         }
